@@ -98,30 +98,35 @@ theorem scanEmitHint_sim (F : Frame inpS inpW δ) (hops : OpsSim env.ops inpS in
       · exact { hc with lastStartTagNameHash := rfl }
     have hnp' : (if ie = true then cs else { cs with lastStartTagNameHash := ss.tagNameHash }).nextPos = cs.nextPos := by
       split <;> rfl
-    have hres : (if ie = true then env.ops.endTagHint name xw.sink else env.ops.startTagHint name xw.sim.currentNs xw.sink).2
-          = (if ie = true then env.ops.endTagHint name xs.sink else env.ops.startTagHint name xs.sim.currentNs xs.sink).2 ∧
-        K 0 (if ie = true then env.ops.endTagHint name xs.sink else env.ops.startTagHint name xs.sim.currentNs xs.sink).1
-          (if ie = true then env.ops.endTagHint name xw.sink else env.ops.startTagHint name xw.sim.currentNs xw.sink).1 := by
+    have hres : OpRel (K 0) (if ie = true then env.ops.endTagHint name xs.sink else env.ops.startTagHint name xs.sim.currentNs xs.sink)
+        (if ie = true then env.ops.endTagHint name xw.sink else env.ops.startTagHint name xw.sim.currentNs xw.sink) := by
       split
       · exact hops.endHint name _ _ hK
       · rw [hsim]; exact hops.startHint name _ _ _ hK
-    obtain ⟨hr2, hK'⟩ := hres
-    rw [hr2]
-    generalize (if ie = true then env.ops.endTagHint name xs.sink else env.ops.startTagHint name xs.sim.currentNs xs.sink).2 = r
-    match r with
-    | .error e => exact Or.inr ⟨rfl, (fun hh => by rcases hh with hh | hh <;> cases hh), fun _ _ hh => by cases hh⟩
-    | .ok .scan =>
-      refine Or.inr ⟨trivial, fun _ => ⟨⟨hc', ?_, hsim, hpc⟩, hK'⟩, fun _ _ hh => by cases hh⟩
-      show 0 = 0 ∧ ScanRel δ ab' _ ss sw ∧ SeqRel δ _ .none ss.chSeqStart sw.chSeqStart
-      rw [hnp']
-      exact ⟨rfl, hs, hq1, hq2⟩
-    | .ok .lex =>
-      refine Or.inr ⟨⟨rfl, ?_⟩, (fun hh => by rcases hh with hh | hh <;> cases hh), fun _ _ _ => ⟨ab', ⟨hc', ?_, hsim, hpc⟩, hK', htsn⟩⟩
-      · refine ⟨hc'.cdataAllowed, hc'.lastTextType, hc'.lastStartTagNameHash, rfl, ?_⟩
-        simp only [mkBookmark, scanTakeFeedbackDirective, hs.pend]
-      · dsimp only
+    rcases hres with hpan | ⟨hr2, hK'⟩
+    · left
+      refine ⟨rfl, ?_⟩
+      revert hpan
+      generalize (if ie = true then env.ops.endTagHint name xs.sink else env.ops.startTagHint name xs.sim.currentNs xs.sink).2 = r
+      intro hpan
+      match r, hpan with
+      | .error (.panic _), _ => exact trivial
+    · rw [hr2]
+      generalize (if ie = true then env.ops.endTagHint name xs.sink else env.ops.startTagHint name xs.sim.currentNs xs.sink).2 = r at hK' ⊢
+      match r, hK' with
+      | .error e, _ => exact Or.inr ⟨rfl, (fun hh => by rcases hh with hh | hh <;> cases hh), fun _ _ hh => by cases hh⟩
+      | .ok .scan, hK' =>
+        refine Or.inr ⟨trivial, fun _ => ⟨⟨hc', ?_, hsim, hpc⟩, hK' ⟨_, rfl⟩⟩, fun _ _ hh => by cases hh⟩
+        show 0 = 0 ∧ ScanRel δ ab' _ ss sw ∧ SeqRel δ _ .none ss.chSeqStart sw.chSeqStart
         rw [hnp']
-        exact ⟨rfl, { hs with pend := rfl, hash := rfl }, hq1, hq2⟩
+        exact ⟨rfl, hs, hq1, hq2⟩
+      | .ok .lex, hK' =>
+        refine Or.inr ⟨⟨rfl, ?_⟩, (fun hh => by rcases hh with hh | hh <;> cases hh), fun _ _ _ => ⟨ab', ⟨hc', ?_, hsim, hpc⟩, hK' ⟨_, rfl⟩, htsn⟩⟩
+        · refine ⟨hc'.cdataAllowed, hc'.lastTextType, hc'.lastStartTagNameHash, rfl, ?_⟩
+          simp only [mkBookmark, scanTakeFeedbackDirective, hs.pend]
+        · dsimp only
+          rw [hnp']
+          exact ⟨rfl, { hs with pend := rfl, hash := rfl }, hq1, hq2⟩
 
 theorem scanFinishTagName_sim (F : Frame inpS inpW δ) (hops : OpsSim env.ops inpS inpW δ K Loc) {ab ab' : Ab}
     {cs cw : Common} {ss sw : ScanRegs} {xs xw : Ctx κ} (h : ScanPre δ K ab cs cw ss sw xs xw)
